@@ -96,19 +96,40 @@ Theorem C06_pool_mutex_owner :
 Proof. exact mutex_owner. Qed.
 Print Assumptions C06_pool_mutex_owner.
 
-(* Full statement wanted (DESIGN, C06): "worker threads all terminate after request_stop (join)",
-   i.e. additionally: in every reachable state that is not final some thread other than the
-   spurious-wake-up environment can take a step (no deadlock, no dependence on spurious wake-ups).
-   Proved here: the safety half -- the owner is finished only after every worker has returned.
-   Missing: the progress half (it needs the converse of C06_pool_mutex_owner: a recorded owner is
-   always at a program point inside that critical section); the schedule explorer found no
-   deadlock on the real code in any explored schedule. *)
-Theorem C06_pool_joined_partial :
+(* A recorded owner of a thread_state mutex is at a program point inside that critical section (the
+   converse of C06_pool_mutex_owner). *)
+Theorem C06_pool_owner_is_in_critical_section :
   forall (rc : bool) (k : nat) (counts : list nat) (sched : list nat),
+  0 < k ->
   let s := fst (run step sched (init rc k counts, [])) in
-  mainpc s = MDone -> forall w, w < k -> nth_error (workers s) w = Some WDone.
-Proof. exact joined. Qed.
-Print Assumptions C06_pool_joined_partial.
+  forall q t, q < nq s -> qown (getq s q) = Some t -> holder s t q.
+Proof. intros rc k counts sched Hk. apply (prog_reachable rc k counts sched Hk). Qed.
+Print Assumptions C06_pool_owner_is_in_critical_section.
+
+(* No reachable state is stuck: unless everything has finished (owner done, producers done, every
+   worker returned) some thread other than the spurious-wake-up environment -- thread ids
+   0 .. p+k -- can take a step.  So no deadlock and no lost wake-up anywhere: no progress ever
+   depends on a spurious wake-up.  (static_thread_pool(0) is excluded by the library's own
+   precondition threadCount > 0.) *)
+Theorem C06_pool_progress :
+  forall (rc : bool) (k : nat) (counts : list nat) (sched : list nat),
+  0 < k ->
+  let s := fst (run step sched (init rc k counts, [])) in
+  final s = false -> exists t, t <= nprods s + nq s /\ step t s <> None.
+Proof. exact progress. Qed.
+Print Assumptions C06_pool_progress.
+
+(* The destructor's join always completes and every worker returns: the run can always be continued
+   by a real thread until the state is final (previous theorem), and the owner is finished only
+   after every worker has returned from run(). *)
+Theorem C06_pool_joined :
+  forall (rc : bool) (k : nat) (counts : list nat) (sched : list nat),
+  0 < k ->
+  let s := fst (run step sched (init rc k counts, [])) in
+  (final s = false -> exists t, t <= nprods s + nq s /\ step t s <> None) /\
+  (mainpc s = MDone -> forall w, w < k -> nth_error (workers s) w = Some WDone).
+Proof. intros rc k counts sched Hk. split; [apply progress; exact Hk|apply joined]. Qed.
+Print Assumptions C06_pool_joined.
 
 (* 2 workers, 2 producers with one item each (threads 0 owner, 1 2 producers, 3 4 workers).
    Worker 0 scans both queues, finds nothing and sleeps in pop(); producer 1 pushes on queue 0 and
